@@ -13,6 +13,7 @@ from . import driver
 
 HERE = os.path.dirname(os.path.dirname(os.path.abspath(__file__)))
 KF_FILE = os.path.join(HERE, "known_findings.json")
+OUT = os.environ.get("VF_OUT") or HERE  # selftest runs redirect evidence and replays away from the committed ones
 
 
 def load_findings() -> list[dict]:
@@ -22,7 +23,7 @@ def load_findings() -> list[dict]:
 
 
 def _replay_path(prop: str, case: dict) -> str:
-    d = os.path.join(HERE, "replays", prop)
+    d = os.path.join(OUT, "replays", prop)
     os.makedirs(d, exist_ok=True)
     h = hashlib.sha1(json.dumps(case, sort_keys=True).encode()).hexdigest()[:12]
     return os.path.join(d, f"{h}.json")
@@ -185,8 +186,8 @@ def run_check(prop: str, tier: str) -> int:
         "wall_s": round(wall, 2),
         "violations": len(unlisted),
     }
-    os.makedirs(os.path.join(HERE, "evidence"), exist_ok=True)
-    json.dump(evidence, open(os.path.join(HERE, "evidence", f"{prop}.json"), "w"), indent=1, default=str)
+    os.makedirs(os.path.join(OUT, "evidence"), exist_ok=True)
+    json.dump(evidence, open(os.path.join(OUT, "evidence", f"{prop}.json"), "w"), indent=1, default=str)
     print(
         f"{prop} {tier}: {run} executions ({not_run} not run), verdicts {dict(verdicts)}, distinct non-trivial {n_nontrivial}, "
         f"unlisted violations {len(unlisted)}, known findings seen {dict(kf_seen)}, {wall:.0f}s"
